@@ -51,7 +51,7 @@ class byte__eval_len(Contract):
 
 class byte__eval_list_slice(Contract):
     target = 'fpy2.interpret.byte:_eval_list_slice'
-    params = {'lst': 'list[Float] | tuple[Float, ...] | Float', 'start': 'Float | Fraction | bool | None',
+    params = {'lst': 'list[Float] | tuple[Float, ...] | Float', 'start': 'Float | Fraction | None',
               'stop': 'Float | Fraction | bool | None', 'a': 'int', 'b': 'int', 'k': 'int'}
     returns = 'list[Float]'
     split = ['start', 'stop']
